@@ -451,9 +451,9 @@ that `Batches` has the empty-input guard of commit fd281a1 (finding F3). -/
 theorem C17_current :
     MdsVerif.Gen.Slice.recognised = true ∧
     -- Partition
-    (∀ len, Gen.Slice.partitionEmpty len = decide (len = 0)) ∧
+    (∀ (len : Nat), Gen.Slice.partitionEmpty len = decide (len = 0)) ∧
     (∀ i, Gen.Slice.partitionJ i = i + 1) ∧
-    (∀ j len, Gen.Slice.partitionDone j len = decide (j = len)) ∧
+    (∀ (j : Nat) (len : Nat), Gen.Slice.partitionDone j len = decide (j = len)) ∧
     Gen.Slice.partitionClips = true ∧
     -- sliceCheck, indexCheck
     (∀ i, Gen.Slice.sliceCheckNeg i = decide (i < 0)) ∧
@@ -463,45 +463,79 @@ theorem C17_current :
     (∀ i n, Gen.Slice.indexCheckNorm i n = i + n) ∧
     (∀ i n, Gen.Slice.indexCheckOk i n = (decide (i ≥ 0) && decide (i < n))) ∧
     -- Rotate, gcd
-    (∀ k n, Gen.Slice.rotateNoop k n = (decide (k = 0) || decide (k = n))) ∧
+    (∀ (k : Int) (n : Nat), Gen.Slice.rotateNoop k n = (decide (k = 0) || decide (k = n))) ∧
     (∀ k n, Gen.Slice.rotateGcdFst k n = k) ∧ (∀ k n, Gen.Slice.rotateGcdSnd k n = n) ∧
     (∀ i k n, Gen.Slice.rotateNext i k n = (i + k) % n) ∧
-    (∀ next j, Gen.Slice.rotateCycleDone next j = decide (next = j)) ∧
-    (∀ a b, Gen.Slice.gcdContinues a b = decide (b ≠ 0)) ∧
+    (∀ (next : Nat) (j : Nat), Gen.Slice.rotateCycleDone next j = decide (next = j)) ∧
+    (∀ (a : Nat) (b : Nat), Gen.Slice.gcdContinues a b = decide (b ≠ 0)) ∧
     (∀ a b, Gen.Slice.gcdNextA a b = b) ∧ (∀ a b, Gen.Slice.gcdNextB a b = a % b) ∧
     -- Chunks
     (∀ n, Gen.Slice.chunksPanics n = decide (n < 0)) ∧
-    (∀ n len, Gen.Slice.chunksWhole n len = (decide (n = 0) || decide (n ≥ len))) ∧
-    (∀ i len, Gen.Slice.chunksContinues i len = decide (i < len)) ∧
+    (∀ (n : Int) (len : Nat), Gen.Slice.chunksWhole n len = (decide (n = 0) || decide (n ≥ len))) ∧
+    (∀ (i : Nat) (len : Nat), Gen.Slice.chunksContinues i len = decide (i < len)) ∧
     (∀ i n len, Gen.Slice.chunksEnd i n len = min (i + n) len) ∧
     Gen.Slice.chunksClip = true ∧
     -- Batches
     (∀ n, Gen.Slice.batchesPanics n = decide (n < 0)) ∧
     (∀ n, Gen.Slice.batchesNil n = decide (n = 0)) ∧
-    (∀ n len, Gen.Slice.batchesCaps n len = decide (n > len)) ∧
+    (∀ (n : Int) (len : Nat), Gen.Slice.batchesCaps n len = decide (n > len)) ∧
     (∀ n len, Gen.Slice.batchesCapped n len = len) ∧
     Gen.Slice.batchesGuardsEmpty = true ∧
     (∀ n, Gen.Slice.batchesEmpty n = decide (n = 0)) ∧
     (∀ len n, Gen.Slice.batchesSize len n = len / n) ∧
     (∀ len n, Gen.Slice.batchesRem len n = len % n) ∧
-    (∀ i len, Gen.Slice.batchesContinues i len = decide (i < len)) ∧
+    (∀ (i : Nat) (len : Nat), Gen.Slice.batchesContinues i len = decide (i < len)) ∧
     (∀ i size, Gen.Slice.batchesEnd i size = i + size) ∧
-    (∀ rem, Gen.Slice.batchesHasRem rem = decide (rem > 0)) ∧
+    (∀ (rem : Nat), Gen.Slice.batchesHasRem rem = decide (rem > 0)) ∧
     (∀ e, Gen.Slice.batchesEndInc e = e + 1) ∧
     (∀ rem, Gen.Slice.batchesRemDec rem = rem - 1) ∧
     Gen.Slice.batchesClip = true ∧
     -- Head, Tail, Stripe
-    (∀ len n, Gen.Slice.headWhole len n = decide (len < n)) ∧
-    (∀ len n, Gen.Slice.tailWhole len n = decide (len < n)) ∧
+    (∀ (len : Nat) (n : Int), Gen.Slice.headWhole len n = decide (len < n)) ∧
+    (∀ (len : Nat) (n : Int), Gen.Slice.tailWhole len n = decide (len < n)) ∧
     (∀ len n, Gen.Slice.tailStart len n = len - n) ∧
-    (∀ i len, Gen.Slice.stripeHas i len = decide (i < len)) :=
-  ⟨rfl, fun _ => rfl, fun _ => rfl, fun _ _ => rfl, rfl,
-   fun _ => rfl, fun _ _ => rfl, fun _ _ => rfl, fun _ => rfl, fun _ _ => rfl, fun _ _ => rfl,
-   fun _ _ => rfl, fun _ _ => rfl, fun _ _ => rfl, fun _ _ _ => rfl, fun _ _ => rfl, fun _ _ => rfl,
-   fun _ _ => rfl, fun _ _ => rfl,
-   fun _ => rfl, fun _ _ => rfl, fun _ _ => rfl, fun _ _ _ => rfl, rfl,
-   fun _ => rfl, fun _ => rfl, fun _ _ => rfl, fun _ _ => rfl, rfl, fun _ => rfl, fun _ _ => rfl,
-   fun _ _ => rfl, fun _ _ => rfl, fun _ _ => rfl, fun _ => rfl, fun _ => rfl, fun _ => rfl, rfl,
-   fun _ _ => rfl, fun _ _ => rfl, fun _ _ => rfl, fun _ _ => rfl⟩
+    (∀ (i : Int) (len : Nat), Gen.Slice.stripeHas i len = decide (i < len)) :=
+  ⟨rfl,
+   by gen_fact Gen.Slice.partitionEmpty,
+   by gen_fact Gen.Slice.partitionJ,
+   by gen_fact Gen.Slice.partitionDone,
+   by gen_fact Gen.Slice.partitionClips,
+   by gen_fact Gen.Slice.sliceCheckNeg,
+   by gen_fact Gen.Slice.sliceCheckNorm,
+   by gen_fact Gen.Slice.sliceCheckOk,
+   by gen_fact Gen.Slice.indexCheckNeg,
+   by gen_fact Gen.Slice.indexCheckNorm,
+   by gen_fact Gen.Slice.indexCheckOk,
+   by gen_fact Gen.Slice.rotateNoop,
+   by gen_fact Gen.Slice.rotateGcdFst,
+   by gen_fact Gen.Slice.rotateGcdSnd,
+   by gen_fact Gen.Slice.rotateNext,
+   by gen_fact Gen.Slice.rotateCycleDone,
+   by gen_fact Gen.Slice.gcdContinues,
+   by gen_fact Gen.Slice.gcdNextA,
+   by gen_fact Gen.Slice.gcdNextB,
+   by gen_fact Gen.Slice.chunksPanics,
+   by gen_fact Gen.Slice.chunksWhole,
+   by gen_fact Gen.Slice.chunksContinues,
+   by gen_fact Gen.Slice.chunksEnd,
+   by gen_fact Gen.Slice.chunksClip,
+   by gen_fact Gen.Slice.batchesPanics,
+   by gen_fact Gen.Slice.batchesNil,
+   by gen_fact Gen.Slice.batchesCaps,
+   by gen_fact Gen.Slice.batchesCapped,
+   by gen_fact Gen.Slice.batchesGuardsEmpty,
+   by gen_fact Gen.Slice.batchesEmpty,
+   by gen_fact Gen.Slice.batchesSize,
+   by gen_fact Gen.Slice.batchesRem,
+   by gen_fact Gen.Slice.batchesContinues,
+   by gen_fact Gen.Slice.batchesEnd,
+   by gen_fact Gen.Slice.batchesHasRem,
+   by gen_fact Gen.Slice.batchesEndInc,
+   by gen_fact Gen.Slice.batchesRemDec,
+   by gen_fact Gen.Slice.batchesClip,
+   by gen_fact Gen.Slice.headWhole,
+   by gen_fact Gen.Slice.tailWhole,
+   by gen_fact Gen.Slice.tailStart,
+   by gen_fact Gen.Slice.stripeHas⟩
 
 end MdsVerif.Props.C17
